@@ -168,6 +168,14 @@ def oracle(ctx, factor, seeds):
         o.evaluations += 1
         if impl[0] == 'err':
             # on the supported fragment lowering must not fail
+            if key is None and impl[1] == 'NotImplementedError' and any(
+                    (not p.exp.is_number) or p.exp.is_Rational and not p.exp.is_Integer
+                    for p in sympy.sympify(e).atoms(sympy.Pow)):
+                # a second derivative of f**g needs dx(log(f)): the coordinate operators refuse an
+                # elementary function of a field (C05, dEval_refuses_fn) - a refusal, not a wrong value,
+                # and outside the fragment for which lower_total states totality
+                o.count('refused:second-derivative-of-variable-power')
+                continue
             k2 = key
             if k2 is None and env.dim == 1 and impl[1] == 'TypeError' and has_grad_of_scalar(e, 1):
                 k2 = 'corpus:1d grad(h)+F'             # explained by the open finding C01-1d-mixed
